@@ -700,6 +700,63 @@ func TestVerifOverlay(t *testing.T) {
 					}
 				}
 			}
+			// ---- iteration order of the readable state: NextKey from every key (and from the ----
+			// ---- empty key) must walk the specification's view in order; the key index of   ----
+			// ---- the diffs is separate from their contents, so reads alone do not cover it  ----
+			if !failed {
+				sweep := func(name string, view voMap, next func(k []byte) ([]byte, error)) {
+					ks := make([]string, 0, len(view))
+					for k := range view {
+						ks = append(ks, k)
+					}
+					sort.Strings(ks)
+					probes := append([]string{""}, ks...)
+					for _, pk := range probes {
+						exp := ""
+						found := false
+						for _, k := range ks {
+							if k > pk {
+								exp, found = k, true
+								break
+							}
+						}
+						var got []byte
+						var err error
+						if pm := vTry(func() { got, err = next([]byte(pk)) }); pm != "" {
+							fail("panic", "no panic", pm, "sweep-"+name+"-panic")
+							return
+						}
+						if err != nil {
+							continue // "child does not exist" and friends are compared by the CNextKey operation itself
+						}
+						res.Cmp()
+						if found != (got != nil) || (found && string(got) != exp) {
+							fail(fmt.Sprintf("%s NextKey(%x)", name, pk), fmt.Sprintf("%v %x", found, exp), fmt.Sprintf("%v %x", got != nil, got), "sweep-"+name+"-nextkey")
+							return
+						}
+					}
+				}
+				if pre.Nest > 0 || s.Obs.Nest > 0 { // outside transactions NextKey is the trie's own (C02)
+					sweep("main", expView.m, func(k []byte) ([]byte, error) {
+						// child-trie root entries live in the main key space; the view has no such keys
+						n := r.ts.NextKey(k)
+						for n != nil && voIsChildKey(string(n)) {
+							n = r.ts.NextKey(n)
+						}
+						return n, nil
+					})
+					for _, c := range r.names {
+						if failed {
+							break
+						}
+						cc := c
+						if len(expView.k[cc]) == 0 {
+							continue
+						}
+						sweep("child", expView.k[cc], func(k []byte) ([]byte, error) { return r.ts.GetChildNextKey([]byte(cc), k) })
+					}
+				}
+			}
 			// ---- committed state: trie entries, child roots, state root ----
 			if !failed && s.Obs.Nest == 0 && len(s.Obs.Roots.Root) > 0 {
 				subst := map[byte][]byte{}
